@@ -46,11 +46,29 @@ pub fn run(ctx: &Ctx) -> Report {
     );
     let depth = ctx.tier.pick(5, 7);
     run_worlds(ctx, &mut rep, &worlds(ctx.tier), depth);
+    let fw = |count: u32, ext: &'static str| RollerK::Fixed { base: 0, count, ext };
+    let mk = |trig: Trig, roller: RollerK, pre: Option<u32>| World { append: true, trig, roller, pre, sizes: vec![], multibyte: false, restart: false };
+    let b = ctx.tier.pick(2usize, 3usize);
+    let mut hs = vec![
+        // limits that force rotations inside the run; windows large enough that nothing is evicted
+        (RSched { world: mk(Trig::Size(30), fw(6, ""), None), threads: 2, per_thread: 2, size: 24, chunks: 2 }, b),
+        (RSched { world: mk(Trig::Size(0), fw(6, ""), Some(10)), threads: 2, per_thread: 2, size: 24, chunks: 1 }, b),
+        (RSched { world: mk(Trig::Size(1100), fw(4, ".gz"), None), threads: 2, per_thread: 2, size: 1500, chunks: 2 }, 2),
+        (RSched { world: mk(Trig::OnStartup(1), fw(3, ""), Some(10)), threads: 3, per_thread: 1, size: 24, chunks: 2 }, 2),
+    ];
+    if ctx.tier == Tier::Thorough {
+        hs.push((RSched { world: mk(Trig::Size(30), fw(8, ""), None), threads: 3, per_thread: 2, size: 24, chunks: 2 }, 2));
+        hs.push((RSched { world: mk(Trig::Size(50), fw(8, ".zst"), None), threads: 2, per_thread: 3, size: 24, chunks: 2 }, 3));
+    }
+    run_scheds(ctx, &mut rep, &hs);
     rep.assume("truncate-mode restarts discard the active file by design (the property claims restarts in append mode); there the directory is compared with the model only");
     rep.assume("background_rotation feature: not explored by this build");
     rep
 }
 
 pub fn replay(case: &serde_json::Value) -> Result<(), String> {
+    if case["kind"] == "schedule" {
+        return replay_sched_case(case);
+    }
     replay_world_case(case)
 }
